@@ -84,8 +84,11 @@ def make_values(recipe):
         fi = np.arange(nf)[:, None]
         dj = np.arange(ndd)[None, :]
         vals = np.zeros((npos, nf, ndd))
+        edge = float(d.get("edge_peaks", 0.0))
         for p in range(npos):
             i0 = rng.uniform(1.0, max(1.0, nf - 2.0))
+            if edge and rng.random() < edge:
+                i0 = rng.choice([0.0, nf - 1.0])  # peak in the first/last bin: no interior peak, fp is undefined
             wf = rng.uniform(1.0, max(1.2, nf / 5))
             j0 = rng.uniform(0, ndd)
             wd = rng.uniform(0.8, max(1.0, ndd / 4))
@@ -153,6 +156,16 @@ def make_dataset(recipe, winds=True):
         ds["wdir"] = (lead_names, np.round(rng.uniform(0, 360, shp), 1).astype(dtype))
         ds["dpt"] = (lead_names, np.round(rng.uniform(8, 400, shp), 1).astype(dtype))
     return ds
+
+
+def site_coords(recipe):
+    """lon/lat of the sites make_dataset() creates for this recipe."""
+    dims = dict((k, n) for k, n in recipe.get("dims", []))
+    ns = dims.get("site", 0)
+    rng = np.random.default_rng(int(recipe.get("data", {}).get("seed", 0)) + 7919)
+    lon = float(recipe.get("lon0", 150.0)) + np.round(rng.uniform(0, 5, ns), 3)
+    lat = float(recipe.get("lat0", -30.0)) + np.round(rng.uniform(0, 5, ns), 3)
+    return lon, lat
 
 
 def describe(recipe):
